@@ -9,14 +9,21 @@ EQB = """Local Open Scope Z_scope.
 Definition list_eqbw {A} (f : A -> A -> bool) : list A -> list A -> bool :=
   fix go xs ys := match xs, ys with [], [] => true | x :: xs', y :: ys' => f x y && go xs' ys' | _, _ => false end.
 Definition zl_eqb := list_eqbw Z.eqb.
-Fixpoint obj_eqb (a b : obj) {struct a} : bool :=
+Fixpoint obj_eqf (fuel : nat) (a b : obj) {struct fuel} : bool :=
+  match fuel with O => false | S fuel =>
+  let eq := obj_eqf fuel in
   match a, b with
   | OInt x, OInt y => Z.eqb x y | OFloat x, OFloat y => Z.eqb x y | OBytes x, OBytes y => zl_eqb x y
   | OText x, OText y => zl_eqb x y | OBool x, OBool y => Bool.eqb x y | ONone, ONone => true
-  | OList x, OList y | OTuple x, OTuple y | OSet x, OSet y | OFset x, OFset y => list_eqbw obj_eqb x y
-  | ODict k1 v1, ODict k2 v2 => list_eqbw obj_eqb k1 k2 && list_eqbw obj_eqb v1 v2
+  | OList x, OList y | OTuple x, OTuple y => list_eqbw eq x y
+  | OSet x, OSet y | OFset x, OFset y =>          (* as sets *)
+      forallb (fun e => existsb (eq e) y) x && forallb (fun e => existsb (fun e' => eq e' e) x) y
+  | ODict k1 v1, ODict k2 v2 =>
+      (List.length k1 =? List.length k2)%nat && (List.length v1 =? List.length v2)%nat &&
+      forallb (fun kv => existsb (fun kv2 => eq (fst kv) (fst kv2) && eq (snd kv) (snd kv2)) (combine k2 v2)) (combine k1 v1)
   | _, _ => false
-  end.
+  end end.
+Definition obj_eqb := obj_eqf 40.
 Definition kw_eqb (a b : list (Z * obj)) : bool :=
   list_eqbw (fun x y => Z.eqb (fst x) (fst y) && obj_eqb (snd x) (snd y)) a b.
 Definition ccode (r : cv) (a : list obj) (kw : list (Z * obj)) : Z :=
